@@ -4,6 +4,7 @@ CONSTANTS
   WSizes <- MCWSizes
   RSizes <- MCRSizes
   Vias = {"Write", "WriteString"}
+  RVias = {"io.Copy"}
   MaxOps = @@OPS@@
   Atomic = FALSE
 INVARIANT Inv
